@@ -1426,6 +1426,20 @@ class World:
                               app, srv, obj.placement_expiry,
                               data.get('expires')))
                 return False
+        # the model's other view: what each server of the master's table
+        # lists must be the instance's own server (the publication cannot
+        # equal a model whose two views disagree)
+        for sname in sorted(master.servers):
+            for app in sorted(master.servers[sname].apps):
+                obj = master.cell.apps.get(app)
+                if obj is None or obj.server != sname:
+                    self.fail('%s:model-views-disagree:%s' % (prop, when),
+                              'server %s lists %s, whose own server is %r '
+                              '(records under %s)' % (
+                                  sname, app,
+                                  obj.server if obj else 'not scheduled',
+                                  [s for s, _d in stored.get(app, [])]))
+                    return False
         for app in sorted(stored):
             if app not in master.cell.apps:
                 self.fail('%s:entry-for-unscheduled:%s' % (prop, when),
@@ -1983,7 +1997,7 @@ class Generator:
             {'op': 'drain'}, {'op': 'master_cycle'}])
         return spec
 
-    def g_detach_then_touch_server(self, world):
+    def g_detach_then_touch_server(self, world, staged=False):
         """A top level bucket with loaded servers is taken out of the cell,
         a cycle moves the instances, then one of the detached servers is
         redefined or deleted, and another cycle runs."""
@@ -1997,10 +2011,41 @@ class Generator:
                     data = world._zk_obj(z.path.server(srv)) or {}
                     if data.get('parent') in racks:
                         per_pod.setdefault(pod, set()).add(srv)
+        attached = [p for p, _r in self.config['topology']
+                    if world.zk.nodes.get(z.path.cell(p)) is not None]
+        if len(attached) < 2:
+            return None               # the instances need somewhere to go
         if not per_pod:
-            return None
-        pod = self.rng.choice(sorted(per_pod))
-        srv = self.rng.choice(sorted(per_pod[pod]))
+            if staged:
+                return None
+            proid = self.rng.choice(self.config['proids'])
+            self.follow.extend([{'op': 'drain'}, {'op': 'master_cycle'},
+                                {'gen': 'detach_then_touch_server'}])
+            return {'op': 'app_create', 'app_id': '%s.web' % proid,
+                    'manifest': {'memory': '256M', 'cpu': '10%',
+                                 'disk': '256M',
+                                 'affinity': '%s.web' % proid},
+                    'count': self.rng.randint(2, 4)}
+        # prefer a server whose instances have at least two other places to
+        # go (up servers of its partition in pods that stay attached)
+        rack_pod = {r: p for p, rs in self.config['topology'] for r in rs}
+
+        def elsewhere(pod, srv):
+            mine = world._zk_obj(z.path.server(srv)) or {}
+            n = 0
+            for other in self._servers(world):
+                data = world._zk_obj(z.path.server(other)) or {}
+                opod = rack_pod.get(data.get('parent'))
+                if other != srv and opod in attached and opod != pod and \
+                        (data.get('partition') or '_default') == \
+                        (mine.get('partition') or '_default') and \
+                        world.zk.nodes.get(
+                            z.path.server_presence(other)) is not None:
+                    n += 1
+            return n
+        pairs = [(p, s_) for p in sorted(per_pod) for s_ in sorted(per_pod[p])]
+        roomy = [(p, s_) for p, s_ in pairs if elsewhere(p, s_) >= 2]
+        pod, srv = self.rng.choice(roomy or pairs)
         touch = {'op': 'srv_delete', 'name': srv}
         if self.rng.random() < 0.5:
             touch = server_spec(self.rng, self.config, srv)
